@@ -8,8 +8,10 @@
 package v02
 
 //@ # C09 (current schema): as v01, plus: a commit digest is only acceptable for tag references.
+//@ # authNamesChange(env, ref, from, to) is, by definition, "a Validate function accepted env for (ref, from, to)"
 //@ func [C09] Validate -> (err)
 //@   requires env != nil
+//@   assumed err == nil ==> authNamesChange(env, targetRef, fromID, targetID)
 //@   ensures namesSubject: err == nil ==> len(attestation.Subject) >= 1 && attestation.Subject[0] != nil
 //@   ensures subjectDigest: err == nil ==> (has(attestation.Subject[0].Digest, digestGitTreeKey) && attestation.Subject[0].Digest[digestGitTreeKey] == targetID) || (!has(attestation.Subject[0].Digest, digestGitTreeKey) && has(attestation.Subject[0].Digest, digestGitCommitKey) && attestation.Subject[0].Digest[digestGitCommitKey] == targetID && strings.HasPrefix(targetRef, gitinterface.TagRefPrefix))
 //@   ensures namesTarget: err == nil ==> ite(has(predicate, targetIDKey), predicate[targetIDKey], nil) == toIfc(targetID)
